@@ -11,7 +11,8 @@ where
         usize::try_from(n).map_err(|e| io::Error::new(io::ErrorKind::InvalidData, e))
     })?;
 
-    let mut chunks = Vec::with_capacity(n_chunk);
+    // The count is read from the stream and cannot be trusted for preallocation.
+    let mut chunks = Vec::new();
 
     for _ in 0..n_chunk {
         let chunk = read_chunk(reader).await?;
